@@ -13,7 +13,7 @@ from .. import sp
 ID = "C08"
 META = {
     "technique": "runtime monitoring: icontract class invariant on Library + lock-step executable list model + atomicity monitor on ValueError, over bounded-exhaustive and random call histories",
-    "level_text": "All histories of add/remove/replace calls (39 call shapes over a 12-block universe (incl. instances of user-defined Entry/String subclasses) with colliding keys) to depth k and random histories of depth 30 are executed on the real Library; after every call the icontract invariant checks the view equations and the partition, the list model checks identity/order/position/wrappers, and every call that raised ValueError must leave the observable state (incl. the order of `strings`) unchanged.",
+    "level_text": "All histories of add/remove/replace calls (39 call shapes over a 13-block universe (incl. an equal-but-distinct copy of one entry and instances of user-defined Entry/String subclasses) with colliding keys) to depth k and random histories of depth 30 are executed on the real Library; after every call the icontract invariant checks the view equations and the partition, the list model checks identity/order/position/wrappers, and every call that raised ValueError must leave the observable state (incl. the order of `strings`) unchanged.",
     "level_note": "remove([..]) is a sequence of single removes; universe blocks are pairwise unequal so that list.remove-by-equality is unambiguous",
 }
 RULE = ("case = history (list of calls) over the universe {e(a), e'(a), e(b), field-less e(c), e'(c), s(a), s'(a), s(b), preamble, comment}; all histories to depth k plus "
@@ -22,8 +22,8 @@ RULE = ("case = history (list of calls) over the universe {e(a), e'(a), e(b), fi
 ASSUMPTIONS = ["block keys are not mutated while held", "K1 (add(..., fail_on_duplicate_key=True) raises after inserting) is a listed known finding"]
 MIN = {"library_invariant": (200000, 2000000), "model_step": (100000, 1000000), "atomicity_on_ValueError": (20000, 200000)}
 
-NAMES = ["ea", "e2a", "exa", "eb", "e0c", "e2c", "sa", "s2a", "sxa", "sb", "p", "c"]
-REPLACE_PAIRS = [("ea", "e2a"), ("ea", "eb"), ("eb", "e2a"), ("sa", "s2a"), ("sa", "ea"), ("e2a", "ea"), ("p", "c"), ("c", "eb"), ("eb", "sa"), ("sa", "sb"), ("sb", "s2a"), ("eb", "e2c"), ("p", "e0c"), ("eb", "exa"), ("sb", "sxa")]
+NAMES = ["ea", "eac", "e2a", "exa", "eb", "e0c", "e2c", "sa", "s2a", "sxa", "sb", "p", "c"]
+REPLACE_PAIRS = [("ea", "e2a"), ("ea", "eb"), ("eb", "e2a"), ("sa", "s2a"), ("sa", "ea"), ("e2a", "ea"), ("p", "c"), ("c", "eb"), ("eb", "sa"), ("sa", "sb"), ("sb", "s2a"), ("eb", "e2c"), ("p", "e0c"), ("eb", "exa"), ("sb", "sxa"), ("eac", "eb"), ("eb", "eac")]
 
 
 def all_ops():
@@ -81,6 +81,7 @@ def universe():
     from bibtexparser import model as M
     return {
         "ea": M.Entry("article", "a", [M.Field("t", "{1}")], raw="@article{a, t = {1}}", start_line=0),
+        "eac": M.Entry("article", "a", [M.Field("t", "{1}")], raw="@article{a, t = {1}}", start_line=0),     # equal to ea, another object
         "e2a": M.Entry("book", "a", [M.Field("t", "{2}")], raw="@book{a, t = {2}}", start_line=1),
         "exa": _subclasses()[0]("online", "a", [M.Field("t", "{5}")], raw="@online{a, t = {5}}", start_line=10),
         "sxa": _subclasses()[1]("a", "{w}", raw="@string{a = {w}}", start_line=11),
@@ -93,6 +94,9 @@ def universe():
         "p": M.Preamble("p", raw="@preamble{p}", start_line=5),
         "c": M.ExplicitComment("c", raw="@comment{c}", start_line=6),
     }
+
+
+EQUAL = {"ea": {"ea", "eac"}, "eac": {"ea", "eac"}}
 
 
 def kind_of(name):
@@ -123,8 +127,10 @@ class Model:
         return dict(name=name, wrapped=False, prev=None)
 
     def index_unwrapped(self, name):
+        """list.index / list.remove locate a block by EQUALITY: the first unwrapped slot holding a block equal to it."""
+        eq = EQUAL.get(name, {name})
         for i, s in enumerate(self.slots):
-            if not s["wrapped"] and s["name"] == name:
+            if not s["wrapped"] and s["name"] in eq:
                 return i
         return -1
 
@@ -140,12 +146,20 @@ class Model:
         return m
 
 
-def observe(lib):
+CANON = {"eac": "ea"}      # equal-content blocks count as the same block ("leaves the library EQUAL to what it was")
+
+
+def observe(lib, U=None):
+    names = {id(v): CANON.get(k, k) for k, v in (U or {}).items()}
+
+    def n(b):
+        return names.get(id(b), id(b))
+
     return dict(
-        blocks=[id(b) for b in lib.blocks], entries=[id(b) for b in lib.entries], strings=[id(b) for b in lib.strings],
-        entries_dict=sorted((k, id(v)) for k, v in lib.entries_dict.items()),
-        strings_dict=sorted((k, id(v)) for k, v in lib.strings_dict.items()),
-        preambles=[id(b) for b in lib.preambles], comments=[id(b) for b in lib.comments], failed=[id(b) for b in lib.failed_blocks],
+        blocks=[n(b) for b in lib.blocks], entries=[n(b) for b in lib.entries], strings=[n(b) for b in lib.strings],
+        entries_dict=sorted((k, str(n(v))) for k, v in lib.entries_dict.items()),
+        strings_dict=sorted((k, str(n(v))) for k, v in lib.strings_dict.items()),
+        preambles=[n(b) for b in lib.preambles], comments=[n(b) for b in lib.comments], failed=[n(b) for b in lib.failed_blocks],
     )
 
 
@@ -156,7 +170,7 @@ def compare_model(lib, model, U, wrappers):
         return f"blocks has {len(blocks)} elements, model {len(model.slots)}"
     for i, (b, s) in enumerate(zip(blocks, model.slots)):
         if not s["wrapped"]:
-            if b is not U[s["name"]]:
+            if b is not U[s["name"]] and not any(b is U[n] for n in EQUAL.get(s["name"], ())):
                 return f"blocks[{i}] is not {s['name']}"
         else:
             if not isinstance(b, M.DuplicateBlockKeyBlock):
@@ -179,7 +193,7 @@ def check(case, ctx):
     saw_wrapper = saw_raise = False
     shape_trace = []
     for step, op in enumerate(case["h"]):
-        before = observe(lib)
+        before = observe(lib, U)
         pre_model = model.copy()
         kind = op[0]
         # ---- model: expected outcome per the statement
@@ -258,7 +272,7 @@ def check(case, ctx):
         if raised:
             saw_raise = True
             ctx.mon("atomicity_on_ValueError")
-            after = observe(lib)
+            after = observe(lib, U)
             if after != before:
                 diffkeys = [k for k in before if before[k] != after[k]]
                 only_order = all(sorted(map(str, before[k])) == sorted(map(str, after[k])) for k in diffkeys)
